@@ -373,3 +373,11 @@ PROPS["C05"]["streams"] = PROPS["C05"]["streams"] + [WC]
 # cut enumeration is ~40 runs per case: keep its share of the C08 streams at about one in seven
 PROPS["C08"]["streams"] = [s_ for s_ in PROPS["C08"]["streams"] if s_.get("kind") != "cuts"] * 2 + \
     [CUTS_G, CUTS_CH, CUTS_ENF]
+
+# ------------------------------------------------------------------ C07: conditionals with an empty branch ("if ... then A else nothing")
+# only under the greedy policies without zero-length tasks: when the join is scheduled *ahead* (planners,
+# chaos, or the early offers of KF-C18-zero-length-parent) the "a join is ready once any parent completed"
+# rule counts the conditional itself as a completed parent -- see DESIGN section 9
+G_COND_EMPTY = {"profile": "greedy", "opts": {"p_batch_loader": 0, "p_conditionals": 1.0, "p_empty_branch": 0.6,
+                                              "p_zero_runtime": 0.0}}
+PROPS["C07"]["streams"] = [G_COND, CH_COND, G_COND_RESOLVE, G_COND_EMPTY]
